@@ -34,14 +34,14 @@ def render (cur : Str) (m : Str) : Code → Str
   | .mvDcSame => s "(*out)[key] = val.DeepCopy()"
   | .mvDcDeref => s "(*out)[key] = *val.DeepCopy()"
   | .mvAssign => s "(*out)[key] = val"
-  | .mvStructDeref => s "(*out)[key] = *val.DeepCopy()"
+  | .mvStructDeref _ => s "(*out)[key] = *val.DeepCopy()"
   | .mvIface n => s "if val == nil {(*out)[key]=nil} else { (*out)[key] = val.DeepCopy" ++ n ++ s "() }"
   | .mvRef raw p => s "var outVal " ++ rawTE cur raw ++ s "if val == nil { (*out)[key] = nil } else { in, out := &val, &outVal" ++ render cur m p ++ s "} (*out)[key] = outVal"
   | .sliceInto raw => s "*out = make(" ++ rawTE cur raw ++ s ", len(*in)) for i := range *in { (*in)[i].DeepCopyInto(&(*out)[i]) }"
   | .sliceCopy raw => s "*out = make(" ++ rawTE cur raw ++ s ", len(*in)) copy(*out, *in)"
   | .sliceRef raw p => s "*out = make(" ++ rawTE cur raw ++ s ", len(*in)) for i := range *in { if (*in)[i] != nil { in, out := &(*in)[i], &(*out)[i]" ++ render cur m p ++ s "} }"
   | .sliceIface raw n => s "*out = make(" ++ rawTE cur raw ++ s ", len(*in)) for i := range *in { if (*in)[i] != nil { (*out)[i] = (*in)[i].DeepCopy" ++ n ++ s "() } }"
-  | .sliceStruct raw => s "*out = make(" ++ rawTE cur raw ++ s ", len(*in)) for i := range *in { (*in)[i].DeepCopyInto(&(*out)[i]) }"
+  | .sliceStruct raw _ => s "*out = make(" ++ rawTE cur raw ++ s ", len(*in)) for i := range *in { (*in)[i].DeepCopyInto(&(*out)[i]) }"
   | .structAll fx => s "*out = *in" ++ render cur m fx
   | .fxNil => []
   | .fxCons name fix rest => render cur name fix ++ render cur m rest
@@ -50,13 +50,13 @@ def render (cur : Str) (m : Str) : Code → Str
   | .ffNone => []
   | .ffArrayAssign => s "out." ++ m ++ s " = in." ++ m
   | .ffStructAssign => s "out." ++ m ++ s " = in." ++ m
-  | .ffStructInto => s "in." ++ m ++ s ".DeepCopyInto(&out." ++ m ++ s ")"
+  | .ffStructInto _ => s "in." ++ m ++ s ".DeepCopyInto(&out." ++ m ++ s ")"
   | .ffIface n => s "if in." ++ m ++ s " != nil { out." ++ m ++ s " = in." ++ m ++ s ".DeepCopy" ++ n ++ s "() }"
   | .ffRef p => s "if in." ++ m ++ s " != nil { in, out := &in." ++ m ++ s ", &out." ++ m ++ render cur m p ++ s "}"
   | .ffArrayLoop p => s "for i := range in." ++ m ++ s " { in, out := &in." ++ m ++ s "[i], &out." ++ m ++ s "[i]" ++ render cur m p ++ s "}"
   | .aeInto => s "in.DeepCopyInto(out)"
   | .aeNone => []
-  | .aeStruct => s "in.DeepCopyInto(out)"
+  | .aeStruct _ => s "in.DeepCopyInto(out)"
   | .aeIface n => s "if *in != nil { *out = (*in).DeepCopy" ++ n ++ s "() }"
   | .aeRef p => s "if *in != nil {" ++ render cur m p ++ s "}"
   | .aeNested p => s "for i := range *in { in, out := &(*in)[i], &(*out)[i]" ++ render cur m p ++ s "}"
